@@ -32,6 +32,21 @@
 (*            found) or append in place (load header; store element and    *)
 (*            store ONLY the length word - checked in the disassembly).    *)
 (*                                                                         *)
+(* GATES (round 3).  A gate is anything that must let the operation pass    *)
+(* before it may execute: the parameter mutators, parsing, the validation   *)
+(* rules, operation selection, variable coercion, the context mutators      *)
+(* (auth / tenant gates, APQ, complexity limit ...), and the GET transport's *)
+(* "queries only" check.  A mutator gate has THREE outcomes: it passes       *)
+(* ("acc"), it returns an error ("rej"), or it PANICS ("pan"); a validation  *)
+(* rule can panic on a document as well (document class "vpan").  A gate     *)
+(* that panicked is a gate that did not pass: the property treats "pan"      *)
+(* exactly like "rej" (Passed, I1, I4, I6, I7); only the shape of the        *)
+(* error-only answer differs (PanicS: the panic unwinds CreateOperationContext*)
+(* and the transport; Server.ServeHTTP recovers it - recover function, then *)
+(* an errors-only body without the response interceptors; the websocket      *)
+(* transport has already been hijacked and just closes the connection).      *)
+(* cfg.tr is the transport the request arrives by.                           *)
+(*                                                                         *)
 (* Everything a request does between two shared-state steps is local; with *)
 (* Fuse = TRUE such a run of local events is one step (exhaustive configs: *)
 (* "all interleavings at shared-state steps"), with Fuse = FALSE one event *)
@@ -45,7 +60,7 @@ CONSTANTS
   Fuse        \* BOOLEAN
 
 VARIABLES
-  cfg,    \* [exts, ck, cn, sugg]: extension list, cache kind, LRU size, suggestions disabled
+  cfg,    \* [exts, ck, cn, sugg, tr]: extension list, cache kind, LRU size, suggestions disabled, transport
   hdr,    \* the slice header of validator.specifiedRules: [a |-> array id, n |-> length]
   arrs,   \* backing arrays: [ArrIds -> Seq({"FOCT","NS","ZERO"})] (what was written)
   cache,  \* query cache: sequence of [q, cls], most recently used last
@@ -60,9 +75,13 @@ vars == <<cfg, hdr, arrs, cache, rq, pc, todo, log, tmp, glog>>
 
 Hooks     == {"pm", "cm", "oi", "ri", "rf", "fi"}
 ExecKinds == {"oi", "rf", "fi", "exec", "res"}    \* what a rejected request must never reach
-LocalPC   == {"pm", "cm", "run", "err"}
-NoReq     == [q |-> "", cls |-> "ok", opsel |-> "found", vcls |-> "good",
-              rej |-> [k |-> "none", i |-> 0], rounds |-> <<>>, roots |-> <<>>]
+LocalPC   == {"pm", "cm", "run", "err", "pan"}
+Transports == {"direct", "post", "get", "form", "sse", "mixed", "ws"}
+\* gates: commands [k, i, o] - the mutator gate (k \in {"pm","cm"}, registration
+\* index i) does not pass: o = "rej" (returns an error) | "pan" (panics);
+\* opt: operation type of the selected operation ("query" if none is selected)
+NoReq     == [q |-> "", cls |-> "ok", opsel |-> "found", vcls |-> "good", opt |-> "query",
+              gates |-> <<>>, rounds |-> <<>>, roots |-> <<>>]
 
 Ev(k, d, i, f) == [k |-> k, d |-> d, i |-> i, f |-> f]
 
@@ -125,56 +144,115 @@ RoundsS(m, exts, roots, rounds, j) ==
 OpS(m, exts, p) ==
   Chain(m, exts, "oi", "", <<Ev("exec", "call", 0, "")>>) \o RoundsS(m, exts, p.roots, p.rounds, 1)
 
-\* DispatchError
-ErrS(m, exts) == Chain(m, exts, "ri", "", <<>>) \o <<Ev("resp", "errors", 0, "")>>
+\* DispatchError (response interceptors around an errors-only response); the
+\* event-stream and websocket transports then tell the client that the
+\* operation is over ("complete"), which the client notes as "nil"
+ErrTail(tr)      == IF tr \in {"sse", "ws"} THEN <<Ev("resp", "nil", 0, "")>> ELSE <<>>
+ErrS(m, exts, tr) == Chain(m, exts, "ri", "", <<>>) \o <<Ev("resp", "errors", 0, "")>> \o ErrTail(tr)
 
-Rejects(exts, h, rej) == rej.k = h /\ rej.i \in 1..Len(exts) /\ exts[rej.i][h]
+\* A panic inside CreateOperationContext unwinds the transport.  Over HTTP
+\* Server.ServeHTTP recovers it: recover function (user code), then an
+\* errors-only body - NO response interceptors.  The websocket transport runs
+\* on a hijacked connection: unwinding its read loop cancels the connection
+\* (the client sees it closed, no frame for the operation), then ServeHTTP
+\* calls the recover function.  In direct mode the driver is the transport.
+PanicS(tr) ==
+  IF tr = "ws" THEN <<Ev("resp", "closed", 0, ""), Ev("recover", "call", 0, "")>>
+  ELSE <<Ev("recover", "call", 0, ""), Ev("resp", IF tr = "direct" THEN "panic" ELSE "errors", 0, "")>>
 
-\* "for _, p := range mutators { if err := p.Mutate...(..); err != nil { return } }"
+\* answers that carry no data
+ErrorOnly == {"errors", "panic", "closed"}
+
+\* the GET transport dispatches queries only (checked after every other gate)
+GetRefuses(tr, p) == tr = "get" /\ p.opt # "query"
+RefS == <<Ev("resp", "errors", 0, "")>>
+
+\* --- mutator gates ---------------------------------------------------------
+\* outcome of gate (h, i) for request p: the first command naming it, else "acc"
+GateOut(p, h, i) ==
+  LET s == {j \in 1..Len(p.gates) : p.gates[j].k = h /\ p.gates[j].i = i}
+  IN  IF s = {} THEN "acc" ELSE p.gates[CHOOSE j \in s : \A j2 \in s : j <= j2].o
+
+\* the first gate of kind h, in registration order, that does not pass (0: none)
+FirstFail(exts, h, p) ==
+  LET s == {i \in 1..Len(exts) : exts[i][h] /\ GateOut(p, h, i) # "acc"}
+  IN  IF s = {} THEN 0 ELSE CHOOSE i \in s : \A i2 \in s : i <= i2
+StageOut(exts, h, p) ==
+  LET ff == FirstFail(exts, h, p) IN IF ff = 0 THEN "acc" ELSE GateOut(p, h, ff)
+
+\* "for _, p := range mutators { if err := p.Mutate...(..); err != nil { return } }":
+\* an error ends the loop by return, a panic by unwinding
 RECURSIVE Mut(_, _, _, _)
-Mut(exts, h, rej, i) ==
+Mut(exts, h, p, i) ==
   IF i > Len(exts) THEN <<>>
   ELSE IF exts[i][h]
-       THEN <<Ev(h, "call", i, "")>> \o (IF rej.k = h /\ rej.i = i THEN <<>> ELSE Mut(exts, h, rej, i + 1))
-       ELSE Mut(exts, h, rej, i + 1)
+       THEN <<Ev(h, "call", i, "")>> \o (IF GateOut(p, h, i) # "acc" THEN <<>> ELSE Mut(exts, h, p, i + 1))
+       ELSE Mut(exts, h, p, i + 1)
 
 \* declarative counterpart: the implementing extensions in registration order
-\* up to and including the rejecting one
-MutD(exts, h, rej) ==
-  LET last == IF Rejects(exts, h, rej) THEN rej.i ELSE Len(exts)
+\* up to and including the first one that did not pass
+MutD(exts, h, p) ==
+  LET ff   == FirstFail(exts, h, p)
+      last == IF ff = 0 THEN Len(exts) ELSE ff
       idx  == SelectSeq([i \in 1..Len(exts) |-> i], LAMBDA i : exts[i][h] /\ i <= last)
   IN  [j \in 1..Len(idx) |-> Ev(h, "call", idx[j], "")]
 
-\* the request passes every gate
-Accepted(exts, p) ==
+\* THE PROPERTY'S ANTECEDENT: the operation passed every gate.  A gate that
+\* returned an error and a gate that panicked are both gates that did not pass.
+GatePassed(p, h, i) == GateOut(p, h, i) = "acc"
+Passed(exts, tr, p) ==
   /\ p.cls = "ok" /\ p.opsel = "found" /\ p.vcls = "good"
-  /\ ~Rejects(exts, "pm", p.rej) /\ ~Rejects(exts, "cm", p.rej)
+  /\ \A h \in {"pm", "cm"} : \A i \in 1..Len(exts) : exts[i][h] => GatePassed(p, h, i)
+  /\ ~GetRefuses(tr, p)
+
+\* what becomes of the request, following the pipeline order (the first gate
+\* reached that does not pass decides)
+Fate(exts, tr, p) ==
+  IF StageOut(exts, "pm", p) = "pan" THEN "panicked"
+  ELSE IF StageOut(exts, "pm", p) = "rej" THEN "rejected"
+  ELSE IF p.cls = "vpan" THEN "panicked"
+  ELSE IF p.cls # "ok" \/ p.opsel # "found" \/ p.vcls # "good" THEN "rejected"
+  ELSE IF StageOut(exts, "cm", p) = "pan" THEN "panicked"
+  ELSE IF StageOut(exts, "cm", p) = "rej" THEN "rejected"
+  ELSE IF GetRefuses(tr, p) THEN "rejected"
+  ELSE "accepted"
 
 \* the complete event word the property prescribes for request p
-Expected(exts, p) ==
-  IF Rejects(exts, "pm", p.rej) THEN MutD(exts, "pm", p.rej) \o ErrS("decl", exts)
-  ELSE IF p.cls # "ok" \/ p.opsel # "found" \/ p.vcls # "good"
-       THEN MutD(exts, "pm", p.rej) \o ErrS("decl", exts)
-  ELSE IF Rejects(exts, "cm", p.rej)
-       THEN MutD(exts, "pm", p.rej) \o MutD(exts, "cm", p.rej) \o ErrS("decl", exts)
-  ELSE MutD(exts, "pm", p.rej) \o MutD(exts, "cm", p.rej) \o OpS("decl", exts, p)
+Expected(exts, tr, p) ==
+  LET pmw == MutD(exts, "pm", p)
+      cmw == MutD(exts, "cm", p)
+  IN  IF StageOut(exts, "pm", p) = "pan" THEN pmw \o PanicS(tr)
+      ELSE IF StageOut(exts, "pm", p) = "rej" THEN pmw \o ErrS("decl", exts, tr)
+      ELSE IF p.cls = "vpan" THEN pmw \o PanicS(tr)
+      ELSE IF p.cls # "ok" \/ p.opsel # "found" \/ p.vcls # "good" THEN pmw \o ErrS("decl", exts, tr)
+      ELSE IF StageOut(exts, "cm", p) = "pan" THEN pmw \o cmw \o PanicS(tr)
+      ELSE IF StageOut(exts, "cm", p) = "rej" THEN pmw \o cmw \o ErrS("decl", exts, tr)
+      ELSE IF GetRefuses(tr, p) THEN pmw \o cmw \o RefS
+      ELSE pmw \o cmw \o OpS("decl", exts, p)
 
 ---------------------------------------------------------------------------
 (* Stages.  A stage record says where a request goes next and which local  *)
 (* events that stage produces; stages without events are skipped.          *)
 
-ErrStage    == [pc |-> "err", todo |-> ErrS("impl", cfg.exts)]
-RunStage(p) == [pc |-> "run", todo |-> OpS("impl", cfg.exts, p)]
-CMStage(p)  == LET ev == Mut(cfg.exts, "cm", p.rej, 1)
+ErrStage    == [pc |-> "err", todo |-> ErrS("impl", cfg.exts, cfg.tr)]
+PanicStage  == [pc |-> "pan", todo |-> PanicS(cfg.tr)]
+RunStage(p) == IF GetRefuses(cfg.tr, p) THEN [pc |-> "err", todo |-> RefS]
+               ELSE [pc |-> "run", todo |-> OpS("impl", cfg.exts, p)]
+CMStage(p)  == LET ev == Mut(cfg.exts, "cm", p, 1)
                IN  IF ev = <<>> THEN RunStage(p) ELSE [pc |-> "cm", todo |-> ev]
 \* the document is there (from the cache or validated): operation selection,
 \* variable coercion
 PostDoc(p)  == IF p.opsel = "notfound" \/ p.vcls = "bad" THEN ErrStage ELSE CMStage(p)
-PMStage(p)  == LET ev == Mut(cfg.exts, "pm", p.rej, 1)
+PMStage(p)  == LET ev == Mut(cfg.exts, "pm", p, 1)
                IN  IF ev = <<>> THEN [pc |-> "cget", todo |-> <<>>] ELSE [pc |-> "pm", todo |-> ev]
+\* after the mutator loop: all passed -> on; error returned -> DispatchError;
+\* panic -> the stack unwinds to whoever recovers
+AfterMut(h, p, next) ==
+  LET o == StageOut(cfg.exts, h, p)
+  IN  IF o = "acc" THEN next ELSE IF o = "rej" THEN ErrStage ELSE PanicStage
 After(stage, p) ==
-  CASE stage = "pm" -> IF Rejects(cfg.exts, "pm", p.rej) THEN ErrStage ELSE [pc |-> "cget", todo |-> <<>>]
-    [] stage = "cm" -> IF Rejects(cfg.exts, "cm", p.rej) THEN ErrStage ELSE RunStage(p)
+  CASE stage = "pm" -> AfterMut("pm", p, [pc |-> "cget", todo |-> <<>>])
+    [] stage = "cm" -> AfterMut("cm", p, RunStage(p))
     [] OTHER        -> [pc |-> "done", todo |-> <<>>]
 
 Goto(r, st) ==
@@ -302,6 +380,7 @@ Validate(r) ==
   /\ LET v == Visible
          p == rq[r]
      IN  IF Has(v, "ZERO") THEN Goto(r, [pc |-> "panicked", todo |-> <<>>])
+         ELSE IF p.cls = "vpan" THEN Goto(r, PanicStage)   \* a (user-registered) rule panics on this document
          ELSE IF p.cls = "ok" \/ (p.cls = "unk" /\ ~Has(v, "FOCT") /\ ~Has(v, "NS"))
               THEN Goto(r, [pc |-> "cadd", todo |-> <<>>])
               ELSE Goto(r, ErrStage)
@@ -339,26 +418,59 @@ Load(c, rules0) ==
 Kinds(s) == {s[i].k : i \in 1..Len(s)}
 IsPrefix(s, t) == Len(s) <= Len(t) /\ SubSeq(t, 1, Len(s)) = s
 
+RqOf(r) == rq[r]
+Ok(r) == Passed(cfg.exts, cfg.tr, RqOf(r))
+RespD(s) == {s[i].d : i \in {j \in 1..Len(s) : s[j].k = "resp"}}
+
+\* I0: the order-free statement "passed every gate" and the pipeline's verdict agree
+I0 == \A r \in Reqs : pc[r] # "idle" => (Ok(r) <=> Fate(cfg.exts, cfg.tr, RqOf(r)) = "accepted")
+
 \* I1: an interceptor / Exec / resolver event of r  =>  r passed every gate
-I1 == \A r \in Reqs : Kinds(log[r]) \cap ExecKinds # {} => Accepted(cfg.exts, rq[r])
+\* (a gate that returned an error or panicked has not been passed)
+I1 == \A r \in Reqs : Kinds(log[r]) \cap ExecKinds # {} => Ok(r)
 
 \* I2: only documents that pass the full rule set are in the cache
 I2 == \A i \in 1..Len(cache) : cache[i].cls = "ok"
 
-\* I3: the events of an accepted request are exactly the lifecycle word,
-\* first registered extension outermost, every hook once per operation /
-\* response / field (the word contains each exactly once)
+\* I3: the events of a request are exactly the word the property prescribes
+\* for it - for an accepted request the lifecycle word, first registered
+\* extension outermost, every hook once per operation / response / field (the
+\* word contains each exactly once); for a request that did not pass a gate
+\* the gates up to that one and the error answer (DispatchError with the
+\* response interceptors for an error; recover function and bare answer for a
+\* panic)
 I3 == \A r \in Reqs :
-        (pc[r] # "idle" /\ Accepted(cfg.exts, rq[r])) =>
-          /\ IsPrefix(log[r], Expected(cfg.exts, rq[r]))
-          /\ pc[r] = "done" => log[r] = Expected(cfg.exts, rq[r])
+        pc[r] # "idle" =>
+          LET e == Expected(cfg.exts, cfg.tr, RqOf(r))
+          IN  /\ IsPrefix(log[r], e)
+              /\ pc[r] = "done" => log[r] = e
 
-\* I4: a rejected request is answered with errors only (and its hook events
-\* are the mutators up to the rejection and the response interceptors)
+\* I4: a request that did not pass every gate - rejected OR panicked - is
+\* answered with errors only: at no moment has an answer of it carried data,
+\* and when it is over it has been given an error answer
 I4 == \A r \in Reqs :
-        (pc[r] = "done" /\ ~Accepted(cfg.exts, rq[r])) =>
-          /\ log[r] = Expected(cfg.exts, rq[r])
-          /\ log[r][Len(log[r])] = Ev("resp", "errors", 0, "")
+        (pc[r] # "idle" /\ ~Ok(r)) =>
+          /\ RespD(log[r]) \subseteq ErrorOnly \cup {"nil"}
+          /\ pc[r] = "done" => RespD(log[r]) \cap ErrorOnly # {}
+
+\* I6: PANIC EXACTLY AS REJECT.  At every moment, a request one of whose
+\* gates panicked has produced nothing but gate calls, the recover function
+\* and an error-only answer - in particular no response interceptor either -
+\* and it never enters DispatchOperation or DispatchError.
+I6 == \A r \in Reqs :
+        (pc[r] # "idle" /\ Fate(cfg.exts, cfg.tr, RqOf(r)) = "panicked") =>
+          /\ Kinds(log[r]) \subseteq {"pm", "cm", "recover", "resp"}
+          /\ RespD(log[r]) \subseteq ErrorOnly
+          /\ pc[r] \notin {"run", "err"}
+
+\* I7: nothing is left behind by a request that did not get that far: a
+\* request whose parameter gates did not all pass (error or panic) never
+\* touches the query cache, and only a document that passed validation
+\* (no error, no panicking rule) is ever added
+I7 == \A r \in Reqs :
+        /\ pc[r] \in {"cget", "rm", "rmW", "rp", "rpW", "ap", "apW", "validate", "cadd"}
+              => StageOut(cfg.exts, "pm", RqOf(r)) = "acc"
+        /\ (pc[r] = "cadd" /\ RuleModel = "config") => RqOf(r).cls = "ok"
 
 \* I5: validation never runs into a nil rule
 I5 == \A r \in Reqs : pc[r] # "panicked"
@@ -366,7 +478,8 @@ I5 == \A r \in Reqs : pc[r] # "panicked"
 TypeOK ==
   /\ hdr.a \in ArrIds /\ hdr.n \in Nat
   /\ \A r \in Reqs : pc[r] \in {"idle", "pm", "cget", "rm", "rmW", "rp", "rpW", "ap", "apW",
-                               "validate", "cadd", "cm", "run", "err", "done", "panicked"}
+                               "validate", "cadd", "cm", "run", "err", "pan", "done", "panicked"}
+  /\ cfg.tr \in Transports
   /\ \A r \in Reqs : pc[r] \in LocalPC <=> todo[r] # <<>>
   /\ cfg.ck = "lru" => Len(cache) <= cfg.cn
   /\ cfg.ck = "none" => cache = <<>>
